@@ -48,6 +48,7 @@ pub fn verdict(ok: bool, what: &str) -> ! {
 }
 
 pub mod refparser { include!("refparser.rs"); }
+pub mod mpdtok;
 pub use refparser::*;
 
 /// outcome of connect / one receive, in a normalised textual form shared by the oracle and the real code
@@ -227,4 +228,24 @@ pub fn deviation_props(stream: &[u8], expect: &[Out], got: &Result<Vec<Out>, Str
     if unsegmented.as_ref().ok().map(|u| u.as_slice()) == Some(expect) || got != other_flavour { p.push("C02"); }
     let _ = stream;
     p
+}
+
+/// bytes the real blocking connection writes for a command (public API only: Connection::send over a capturing writer)
+pub struct Capture { pub input: Chunks, pub written: std::sync::Arc<std::sync::Mutex<Vec<u8>>> }
+impl Read for Capture { fn read(&mut self, b: &mut [u8]) -> io::Result<usize> { self.input.read(b) } }
+impl io::Write for Capture {
+    fn write(&mut self, b: &[u8]) -> io::Result<usize> { self.written.lock().unwrap().extend_from_slice(b); Ok(b.len()) }
+    fn flush(&mut self) -> io::Result<()> { Ok(()) }
+}
+pub fn wire_of_command(c: mpd_protocol::Command) -> Vec<u8> {
+    let w = std::sync::Arc::new(std::sync::Mutex::new(vec![]));
+    let mut conn = mpd_protocol::Connection::connect(Capture { input: Chunks::new(&[b"OK MPD 0.23.5\n"]), written: w.clone() }).unwrap();
+    conn.send(c).unwrap();
+    let v = w.lock().unwrap().clone(); v
+}
+pub fn wire_of_list(c: mpd_protocol::CommandList) -> Vec<u8> {
+    let w = std::sync::Arc::new(std::sync::Mutex::new(vec![]));
+    let mut conn = mpd_protocol::Connection::connect(Capture { input: Chunks::new(&[b"OK MPD 0.23.5\n"]), written: w.clone() }).unwrap();
+    conn.send_list(c).unwrap();
+    let v = w.lock().unwrap().clone(); v
 }
